@@ -30,7 +30,7 @@ PARAMS = {'p1': 0.25, 'p2': 0.75, 'p3': 0.5}
 RP = {v: k for k, v in PARAMS.items()}
 NAN = float('nan')
 MEAS = {'m1': {'a': 1.0, 'b': 2.0}, 'm2': {'a': 2.0, 'b': 1.0}, 'm3': {'a': 1.0, 'b': 1.0}, 'mp': {'a': 2.0},
-        'mn': {'a': NAN, 'b': 1.0}}
+        'mn': {'a': NAN, 'b': 1.0}, 'mi': {'a': float('inf'), 'b': 2.0}, 'mj': {'a': float('inf'), 'b': 1.0}}
 # metadata cells: (namespace, key).  c2 lives in an algorithm-style namespace, c3 has a colon inside a component.
 CELLS = {'c1': ('', 'k1'), 'c2': (':algo', 'k1'), 'c3': (':a\\:b', 'k1'), 'c4': ('', 'k2')}
 STATE = {0: 'UNSPEC', 1: 'ACTIVE', 2: 'INACTIVE', 3: 'COMPLETED'}
@@ -80,6 +80,11 @@ class ScriptedPolicy(pythia.Policy):
 class ScriptedFactory:
 
   def __call__(self, problem, algo, supporter, name):
+    # an algorithm can also fail before the policy exists (e.g. an algorithm name the factory cannot build):
+    # that failure is raised outside PythiaServicer's own try/except
+    e = current_env()
+    if e and e.get('raise') and e.get('at') == 'factory':
+      raise ValueError('scripted policy-factory failure')
     return ScriptedPolicy(supporter)
 
 
@@ -368,6 +373,10 @@ class World:
     if rpc == 'DeleteTrial':
       api.DeleteTrial(vs.DeleteTrialRequest(name=self.tname(s, c['t'])))
       return 'Empty'
+    if rpc in ('SuggestTrials', 'CheckEarlyStopping') and c['env'].get('raise') and 'at' not in c['env']:
+      # where the algorithm fails is not part of the model (the outcome must be the same): alternate deterministically
+      self._raises = getattr(self, '_raises', 0) + 1
+      c = dict(c, env=dict(c['env'], at='factory' if self._raises % 2 == 0 else 'policy'))
     if rpc == 'SuggestTrials':
       set_env(c['env'])
       op = api.SuggestTrials(vs.SuggestTrialsRequest(parent=self.sname(s), suggestion_count=c['n'], client_id=c['w']))
